@@ -145,7 +145,7 @@ Qed.
 (* ------------------------------------------------------------------ *)
 (* assembly                                                             *)
 
-From Verif Require Model.C18 Proofs.C18 Proofs.C19.
+From Verif Require Import Lib.Hashring_Answers Lib.Hashring_AnswersFacts Lib.Hashring_Build.
 
 Lemma dedup_complete : forall l seen x, In x l -> In x seen \/ In x (dedup seen l).
 Proof.
@@ -191,19 +191,19 @@ Proof.
   assert (Hsec' : Forall (fun e : Z * list Z => snd e <> []) eps).
   { unfold eps, nozone. rewrite Forall_forall in *. intros e He. apply in_map_iff in He as [h [<- Hh]]. simpl. auto. }
   assert (Hlen : length eps = length hs) by apply nozone_length.
-  destruct (Proofs.C19.single_zone_ok eps rf) as [ring [reps K]].
+  destruct (single_zone_ok eps rf) as [ring [reps K]].
   { unfold eps. rewrite (az_set_nozone hs Hne). simpl. lia. }
   { lia. }
   { exact Hsec'. }
   (* shape of the result *)
-  assert (Heq : loop_answers hs rf v = Model.C18.ketama_answers eps rf v).
-  { unfold loop_answers, loop_query, Model.C18.ketama_answers. fold eps. rewrite Hlen. reflexivity. }
+  assert (Heq : loop_answers hs rf v = ketama_answers eps rf v).
+  { unfold loop_answers, loop_query, ketama_answers. fold eps. rewrite Hlen. reflexivity. }
   rewrite Heq.
   assert (Hsne : sections_of 0 eps <> []).
   { destruct hs as [|h r]; [congruence|]. inversion Hsec; subst. destruct h as [|x h]; [congruence|]. simpl. discriminate. }
-  destruct (Model.C18.ketama_answers eps rf v) as [a|] eqn:A.
-  2:{ unfold Model.C18.ketama_answers in A. rewrite K in A. discriminate. }
-  destruct (Proofs.C18.ketama_answers_spec eps rf v a Hsne A) as [ring2 [reps2 [K2 [Hring [Ea _]]]]].
+  destruct (ketama_answers eps rf v) as [a|] eqn:A.
+  2:{ unfold ketama_answers in A. rewrite K in A. discriminate. }
+  destruct (ketama_answers_spec eps rf v a Hsne A) as [ring2 [reps2 [K2 [Hring [Ea _]]]]].
   rewrite K in K2. inversion K2; subst ring2 reps2. clear K2. f_equal. rewrite Ea.
   (* the replicas of the section found by the lookup *)
   pose proof K as K'. unfold ketama_new, ketama_new_fuel in K'.
@@ -212,7 +212,7 @@ Proof.
   inversion K'; subst ring replicas. clear K'. unfold calc_replicas in C.
   set (ring := sort_sections (sections_of 0 eps)) in *.
   set (idx := ring_index ring v).
-  assert (Hidx : idx < length ring) by (apply Proofs.C18.ring_index_lt; exact Hring).
+  assert (Hidx : idx < length ring) by (apply ring_index_lt; exact Hring).
   pose proof (calc_from_nth _ _ _ _ _ _ _ C idx ltac:(rewrite seq_length; exact Hidx)) as W.
   rewrite seq_nth in W by exact Hidx. simpl in W.
   unfold eps in W at 2. rewrite (az_set_nozone hs Hne) in W. simpl in W.
